@@ -353,14 +353,14 @@ def run(ctx):
         # 5 nodes: random walks through Build and the rest of the machine (invariants checked, cases emitted).
         # TLC evaluates Emit on every successor it draws from, so one walk in dup mode yields every one-step
         # and (along the drawn step) every two-step script of its graph.
-        r = ctx.gen("mc/MC_TypeGraph", "gen/Gen_TypeGraph.cfg", simulate=150, depth=40, label="simulate N<=5",
+        r = ctx.gen("mc/MC_TypeGraph", "gen/Gen_TypeGraph.cfg", simulate=60, depth=40, label="simulate N<=5",
                     consts=dict(N=5, K=3, Leaves='{"string", "int"}', UKinds='{"user", "result"}', Modes='{"hash", "dup"}', Decos="{0, 1, 3}",
                                 MaxSteps=2, Script='"free"'), timeout=3000)
         replay_vectors(ctx, r.vectors, seen, nontrivial, "simulate")
         r.vectors, r.stdout = [], ""
     del seen
     # (J) random graphs up to 5 nodes, judged by trace validation
-    nrand = 150 if quick else 2000
+    nrand = 150 if quick else 1200
     d = ctx.subdir("random")
     binp = ctx.gobuild(DRIVER)
     tpath = os.path.join(d, "trace.ndjson")
